@@ -872,10 +872,14 @@ class LearnerND(BaseLearner):
         return max(losses.values()) if losses else float("inf")
 
     def remove_unfinished(self):
-        # XXX: implement this method
         self.pending_points = set()
         self._subtriangulations = {}
         self._pending_to_simplex = {}
+        # The queue still refers to the discarded sub-simplices, and simplices
+        # that were already chosen for subdivision have no entry any more.
+        self._simplex_queue = SortedKeyList(key=_simplex_evaluation_priority)
+        for simplex, loss in self._losses.items():
+            self._simplex_queue.add((loss, simplex, None))
 
     ##########################
     # Plotting related stuff #
